@@ -10,7 +10,7 @@ import vlib
 from pure_common import SPECS as SPEC_CLASSES
 from scale_common import Extras19Spec
 
-PROP_FILES = ["C19", "TranslatedSlices"]
+PROP_FILES = ["C19", "TranslatedSlices", "TranslatedSlices2"]
 # tag -> (spec, harness module, runner executable)
 SPECS = dict((cls.package, (cls(), "harness_pure", "runner-pure")) for cls in SPEC_CLASSES)
 SPECS["extras"] = (Extras19Spec(), "harness", "runner")
